@@ -119,6 +119,19 @@ def run(ctx):
             V.report(ctx, rule, rec, "a session bound to Host %s (%s) presented on Host %s was forwarded to backend %s (status %d); the two spellings route to different upstreams"
                      % (rec["forhost"], rec["minted"], rec["athost"], rec["reached"], rec["status"]), {"kind": "xuse", "record": rec})
     ctx.cov["cross_spelling_probes"] = xs["executed"]
+    # the same user's session at two upstreams with different group rules AT THE SAME MOMENT (ProxySession's pair leg):
+    # each request is handled under the policy of the upstream its Host names, whatever the upstreams share
+    pobs = os.path.join(ctx.scratch, "pairs.ndjson")
+    ps_ = V.harness(ctx, ["ps-pairs", "-out", pobs, "-seed", ctx.seed, "-n", 200 if ctx.tier == "quick" else 4000, "-workers", 8])
+    pv, _, _ = V.leg_v(ctx, "ProxySessionTrace", "ProxySessionTrace.cfg", pobs, label="V-pairs")
+    for lineno, rules in pv:
+        rec = V.read_line(pobs, lineno)
+        if "two upstreams" not in ((rec.get("conc") or {}).get("note") or ""):
+            continue
+        if "C01_Mediation" in rules:
+            V.report(ctx, "C13_RightPolicy", rec, "two upstreams with different group rules asked about the same user at the same moment: the request for %s was served although "
+                     "ITS upstream's group rule refuses the user (answers %s)" % ((rec.get("conc") or {}).get("host"), json.dumps(rec.get("ans"))), {"kind": "pairs", "record": rec})
+    ctx.cov["concurrent_pairs"] = ps_["executed"]
     # vacuity: antecedents of every rule, counted on what was executed
     ante = {"unknown_host": 0, "known_host": 0, "static_inside_rewrite": 0, "several_rewrites_match": 0, "served": 0, "policy_refused": 0,
             "other_provider_session": 0, "cross_use_session": 0, "signin_redirect": 0, "login_minted": 0, "login_cross_use": 0,
@@ -197,6 +210,15 @@ def replay(ctx, path):
     rp = json.load(open(path))
     rec = rp["record"]
     V.build_harness(ctx)
+    if rp.get("kind") == "pairs":
+        pobs = os.path.join(ctx.scratch, "pairs.ndjson")
+        V.harness(ctx, ["ps-pairs", "-out", pobs, "-seed", rp["seed"], "-n", 200 if rp["tier"] == "quick" else 4000, "-workers", 8])
+        pv, _, _ = V.leg_v(ctx, "ProxySessionTrace", "ProxySessionTrace.cfg", pobs, label="V-pairs")
+        for lineno, rules in pv:
+            r2 = V.read_line(pobs, lineno)
+            if "C01_Mediation" in rules and "two upstreams" in ((r2.get("conc") or {}).get("note") or ""):
+                V.report(ctx, "C13_RightPolicy", r2, "concurrent pair (schedule-dependent; the whole leg was re-run)", {"kind": "pairs", "record": r2})
+        return V.finish(ctx, RULE)
     cells, n = V.leg_g(ctx, "RoutingGen", "Routing.Gen.cfg", "CELL", "cells.jsonl", workers=10)
     sort_file(cells)
     sample, reps = params(rp["tier"])
